@@ -9,7 +9,7 @@ Rt == /\ IsEvent("rt")
       \* accepts a byte string"; a parser that fails with anything but malformed-packet is C01's business
       /\ UNCHANGED dummy
       \* (compared with TRUE so that TLC evaluates the predicate as a value instead of splitting its disjunctions into actions)
-      /\ ((Ev.accepted /\ Ev.applied) => RoundTripOK(Ev)) = TRUE
+      /\ ((Ev.accepted /\ Ev.applied) => (IF Ev.mutk = "lie" THEN WeakRoundTripOK(Ev) ELSE RoundTripOK(Ev))) = TRUE
 Next == Rt
 Spec == Init /\ [][Next]_vars
 MarkSilent == NoteSkipped(~(Log[ex + 1].accepted /\ Log[ex + 1].applied))
